@@ -50,13 +50,30 @@ Spec == Init /\ [][Next]_vars
 A == Rep[ta]
 B == Rep[tb]
 
-(* the laws of the property, over every pair of values of the two types *)
-MirrorLaw == \A i \in A, j \in B, op \in Ops : Cmp(op, i, j) = Cmp(Mirror(op), j, i)
-NegateLaw == \A i \in A, j \in B, op \in Ops : Cmp(op, i, j) = ~Cmp(Negate(op), i, j)
+(* three-valued comparison: index 0 is NULL *)
+Cmp3(op, i, j) == IF i = 0 \/ j = 0 THEN "N" ELSE IF Cmp(op, i, j) THEN "T" ELSE "F"
+Not3(x) == CASE x = "T" -> "F" [] x = "F" -> "T" [] OTHER -> "N"
+Or3(X) == IF "T" \in X THEN "T" ELSE IF "N" \in X THEN "N" ELSE "F"       \* OR over a set of truth values
+In3(i, S) == Or3({Cmp3("=", i, j) : j \in S})                             \* x IN (list), list may contain NULL
+NotDistinct(i, j) == IF i = 0 /\ j = 0 THEN TRUE ELSE IF i = 0 \/ j = 0 THEN FALSE ELSE i = j
+A0 == A \cup {0}
+B0 == B \cup {0}
+
+(* the laws of the property, over every pair of values (NULL included) of the two types *)
+MirrorLaw == \A i \in A0, j \in B0, op \in Ops : Cmp3(op, i, j) = Cmp3(Mirror(op), j, i)
+NegateLaw == \A i \in A0, j \in B0, op \in Ops : Cmp3(op, i, j) = Not3(Cmp3(Negate(op), i, j))
 Trichotomy == \A i \in A, j \in B : Cardinality({op \in {"<", "=", ">"} : Cmp(op, i, j)}) = 1
-InLaw == \A i \in A : In(i, B) = (\E j \in B : Cmp("=", i, j)) /\ (In(i, B) = (i \in B))
+InLaw == /\ \A i \in A : In(i, B) = (\E j \in B : Cmp("=", i, j)) /\ (In(i, B) = (i \in B))
+         /\ \A i \in A0 : /\ In3(i, B) = (IF i = 0 THEN "N" ELSE IF i \in B THEN "T" ELSE "F")
+                           /\ In3(i, B0) = (IF i # 0 /\ i \in B THEN "T" ELSE "N")      \* a NULL entry turns "no" into "unknown"
+                           /\ In3(i, {}) = "F"
 JoinLaw == /\ Join(A, B) = {<<i, i>> : i \in A \cap B}
            /\ Join(B, A) = {<<p[2], p[1]>> : p \in Join(A, B)}
+           /\ {<<i, j>> \in A0 \X B0 : Cmp3("=", i, j) = "T"} = Join(A, B)              \* NULL keys never join ...
+           /\ {<<i, j>> \in A0 \X B0 : NotDistinct(i, j)} = Join(A, B) \cup {<<0, 0>>}   \* ... except under IS NOT DISTINCT FROM
+BetweenLaw == \A i \in A0, j \in B0 :                                   \* x BETWEEN y AND y is x = y
+                 (IF Cmp3(">=", i, j) = "T" /\ Cmp3("<=", i, j) = "T" THEN "T"
+                  ELSE IF Cmp3(">=", i, j) = "F" \/ Cmp3("<=", i, j) = "F" THEN "F" ELSE "N") = Cmp3("=", i, j)
 
 SetToSeq(S) == LET RECURSIVE F(_) 
                    F(T) == IF T = {} THEN <<>> ELSE LET m == CHOOSE x \in T : \A y \in T : x <= y IN <<m>> \o F(T \ {m})
